@@ -1,10 +1,10 @@
 package main
 
 import (
-	"strings"
 	"fmt"
 	"go/token"
 	"go/types"
+	"strings"
 
 	"golang.org/x/tools/go/ssa"
 )
@@ -543,6 +543,8 @@ func checkC14(c *Ctx) {
 
 	// ---- O4 re-entrant handles ------------------------------------------------------------------
 	c.checkReentrantHandles("O4 reentrant-handles", []string{"m3", "prometheus", "multi"})
+	// ... and no slice shared between calls (the cached tag slice) is appended to in place - a data race between concurrent Allocate calls with equal tags (shared with C12 O7 / C13 O8)
+	c.checkSharedTagSlices("O4 shared-tags")
 
 	eng := c.newLockEngine()
 	c.checkFieldDiscipline("O4 field-discipline", []string{"m3", "internal/cache"}, eng, 12)
